@@ -174,7 +174,26 @@ def replay_case(mod, case):
     return acc.violations
 
 
+_RUN_TMP = None
+
+
 def main(argv):
+    """Every scratch file of a run lives in one private directory (TMPDIR for
+    this process and its workers) that is removed when the run ends, however
+    the workers leave."""
+    global _RUN_TMP
+    import shutil
+    import tempfile
+    _RUN_TMP = tempfile.mkdtemp(prefix="rigverif_run_")
+    os.environ["TMPDIR"] = _RUN_TMP
+    tempfile.tempdir = _RUN_TMP
+    try:
+        return _main(argv)
+    finally:
+        shutil.rmtree(_RUN_TMP, True)
+
+
+def _main(argv):
     ap = argparse.ArgumentParser()
     ap.add_argument("prop")
     ap.add_argument("--tier", default=os.environ.get("VERIF_TIER") or "quick",
@@ -247,6 +266,9 @@ def main(argv):
                     os.kill(w.pid, signal.SIGKILL)
                 except Exception:
                     pass
+            if _RUN_TMP:
+                import shutil
+                shutil.rmtree(_RUN_TMP, True)
             os._exit(143)
         signal.signal(signal.SIGTERM, _term)
         it = pool.imap_unordered(_worker, jobs)
